@@ -294,6 +294,7 @@ func (h *v6Host) NewStream(ctx context.Context, p peer.ID, pids ...protocol.ID) 
 			select {
 			case <-t.C:
 			case <-ctx.Done():
+				w.logf("req %s #%d abandoned by the client before the answer", w.singleKey, i)
 				return nil, ctx.Err()
 			case <-w.done:
 			}
